@@ -410,7 +410,10 @@ func EntVariants(levels []zapcore.Level) []Ent {
 			Ent{Level: l, Time: time.Time{}.Add(-1), Name: "n", Message: "one nanosecond before the zero Time"},
 			Ent{Level: l, Time: time.Date(0, 6, 1, 12, 0, 0, 0, time.UTC), Caller: HostileCaller, Message: "year 0"},
 			// a caller that is not Defined carries no caller and no function, whatever its other fields hold
-			Ent{Level: l, Time: NormalTime, Name: "n", Caller: zapcore.EntryCaller{Defined: false, File: "/left/over.go", Line: 3, Function: "left.Over"}, Message: "undefined caller with left-over strings"})
+			Ent{Level: l, Time: NormalTime, Name: "n", Caller: zapcore.EntryCaller{Defined: false, File: "/left/over.go", Line: 3, Function: "left.Over"}, Message: "undefined caller with left-over strings"},
+			// a defined caller without a function name (zapcore.NewEntryCaller gives exactly this; frames without symbols)
+			Ent{Level: l, Time: NormalTime, Name: "n", Caller: zapcore.EntryCaller{Defined: true, File: "/src/pkg/file.go", Line: 9}, Message: "caller without function name"},
+			Ent{Level: l, Caller: zapcore.EntryCaller{Defined: true, File: "/src/pkg/file.go", Line: 9}, Message: "m"})
 	}
 	return out
 }
